@@ -315,6 +315,50 @@ impl Ctx {
         self.vios.lock().unwrap().len()
     }
 
+    /// Child mode (C17's second build): print a machine-readable summary instead of
+    /// writing the evidence file; the parent process merges it.
+    pub fn finish_child(&self) -> i32 {
+        let vios = self.vios.lock().unwrap();
+        let seen = self.known_seen.lock().unwrap();
+        let vio_list: Vec<Value> = vios
+            .iter()
+            .map(|(k, r)| {
+                let parts: Vec<&str> = k.split('\u{1}').collect();
+                json!({"property": parts[0], "key": parts[1], "what": r.what, "occurrences": r.count, "replay": r.replay})
+            })
+            .collect();
+        let known: Vec<Value> = seen
+            .iter()
+            .map(|(k, n)| {
+                let parts: Vec<&str> = k.split('\u{1}').collect();
+                json!({"property": parts[0], "key": parts[1], "what": parts[2], "occurrences": n})
+            })
+            .collect();
+        let out = json!({
+            "states": self.states.load(Ordering::Relaxed),
+            "transitions": self.transitions.load(Ordering::Relaxed),
+            "counters": self.counters.lock().unwrap().clone(),
+            "edges": self.edges.lock().unwrap().clone(),
+            "violations": vio_list,
+            "known": known,
+            "wall_s": self.start.elapsed().as_secs_f64(),
+        });
+        println!("CHILD_RESULT {}", serde_json::to_string(&out).unwrap());
+        if vios.is_empty() { 0 } else { 1 }
+    }
+
+    /// Registers a known finding seen by a child process.
+    pub fn note_known(&self, prop: &str, key: &str, what: &str, n: u64) {
+        *self.known_seen.lock().unwrap().entry(format!("{prop}\u{1}{key}\u{1}{what}")).or_insert(0) += n;
+    }
+
+    /// Registers a violation already reported (and replay-filed) by a child process.
+    pub fn adopt_violation(&self, prop: &str, key: &str, what: &str, replay: &str, n: u64) {
+        let full = format!("{prop}\u{1}{key}");
+        let mut v = self.vios.lock().unwrap();
+        v.entry(full).or_insert(VioRec { count: 0, what: what.to_string(), replay: replay.to_string() }).count += n;
+    }
+
     /// Writes the evidence file and returns the process exit code.
     pub fn finish(&self, mut coverage: Value, assumptions: Vec<String>) -> i32 {
         let vios = self.vios.lock().unwrap();
